@@ -331,6 +331,8 @@ def cases(tier):
     for sch in ([["int64", "text", "float64"], ["text"], ["int8", "bool", "int64", "float64", "text", "text", "int64", "float64", "bool", "int8", "text", "int64"]]):
         for rows in ((1100,) if tier == "quick" else (300, 1100, 3000)):
             yield {"k": "bigframe", "schema": sch, "rows": rows}
+    for sch in (["int64", "text", "float64"], ["text"], ["bool", "int8"]):
+        yield {"k": "bigframe", "schema": sch, "rows": 2, "repeat": 3}
     yield from small_cases(tier)
 
 
@@ -372,6 +374,10 @@ def run_bigframe(case):
         m = Model(sch, n0)
         df = create(b, "big", m, "col_dict")
         steps = ["verify", "append-600", "bad-append-late", "write_column-all", "write_rows-spread", "bad-write-rows-late", "append_column", "reopen", "write_cell-last"]
+        if case.get("repeat"):
+            # a long history on a small table: the same operations three times over (appended columns get new names)
+            steps = steps * case["repeat"]
+        ncol = [0]
         k = 0
         for st in steps:
             k += 1
@@ -381,13 +387,13 @@ def run_bigframe(case):
             exc = None
             try:
                 if st == "append-600":
-                    rows = [tuple(val(t, ri + 7 * ci + k) for ci, t in enumerate(m.types)) for ri in range(600)]
+                    rows = [tuple(val(t, ri + 7 * ci + k) for ci, t in enumerate(m.types)) for ri in range(600 if not case.get("repeat") else 3)]
                     df.append_rows(rows)
                     for ci in range(c):
                         m.cols[ci].extend(row[ci] for row in rows)
                 elif st == "bad-append-late":
-                    rows = [tuple(val(t, ri + ci) for ci, t in enumerate(m.types)) for ri in range(600)]
-                    rows[555] = rows[555] + (1,)              # one row too long, far behind any batch size
+                    rows = [tuple(val(t, ri + ci) for ci, t in enumerate(m.types)) for ri in range(600 if not case.get("repeat") else 4)]
+                    rows[555 if not case.get("repeat") else 3] = rows[-1] + (1,)              # one row too long, far behind any batch size
                     try:
                         df.append_rows(rows)
                         r.outcomes.add("bad-accepted-without-effect?")
@@ -416,8 +422,10 @@ def run_bigframe(case):
                         r.outcomes.add("refused:" + type(e).__name__)
                 elif st == "append_column":
                     col = [val("int64", ri + k) for ri in range(n)]
-                    df.append_column(col, "zz_new", datatype=np.int64)
-                    m.names.append("zz_new")
+                    ncol[0] += 1
+                    cname = "zz_new" if ncol[0] == 1 else "zz_new%d" % ncol[0]
+                    df.append_column(col, cname, datatype=np.int64)
+                    m.names.append(cname)
                     m.types.append("int64")
                     m.cols.append(list(col))
                     if m.units is not None:
